@@ -76,6 +76,8 @@ func cmdRun(args []string) int {
 	poll := fs.Int("poll-unwind", 0, "idle polling bound")
 	stopFirst := fs.Bool("stop-at-first", false, "stop at first violation")
 	slog := fs.String("solver-log", "", "log solver input to file")
+	var stubs multiFlag
+	fs.Var(&stubs, "stub", "name=kind (repeatable); @ expands to the module path")
 	samplePaths := fs.Int("sample-paths", 0, "record models+label traces of up to K complete paths")
 	fs.Parse(args)
 
@@ -111,6 +113,10 @@ func cmdRun(args []string) int {
 	defer pool.Close()
 	eng := sym.NewEngine(l.Prog, l.Fset, cfg, pool)
 	eng.RepoDir = *repo
+	for _, s := range stubs {
+		kv := strings.SplitN(s, "=", 2)
+		eng.EnableStub(kv[0], kv[1])
+	}
 	eng.SamplePaths = *samplePaths
 	inits := l.InitOrder([]string{"github.com/ErdemOzgen/blackdagger"})
 	eng.Explore(entryFn, inits)
@@ -177,3 +183,8 @@ func findEntry(l *sym.Loaded, pkg, entry string) *ssaFunc {
 	}
 	return nil
 }
+
+type multiFlag []string
+
+func (m *multiFlag) String() string     { return strings.Join(*m, ",") }
+func (m *multiFlag) Set(v string) error { *m = append(*m, v); return nil }
